@@ -558,7 +558,11 @@ pub fn run(run: &Run) {
                 let mut sc = mk(true, items, cp, windows[(si + ci) % windows.len()]);
                 sc.modes = modes.clone();
                 jobs.push((sc.clone(), 0, Mode::Default));
-                if (si + ci) % 8 == 0 {
+                // with a window below the size of an acknowledgement every 1-byte call is answered by a
+                // ~20-byte acknowledgement: finite but tens of steps per payload byte - keep those small
+                let tiny_window = sc.client_window < 100 || sc.server_window < 100;
+                let large_item = items.iter().any(|i| matches!(i, Item::Video { len, .. } | Item::Audio { len, .. } if *len > 1000));
+                if (si + ci) % 8 == 0 && !(tiny_window && large_item) {
                     jobs.push((sc.clone(), 0, Mode::Fixed(1)));
                     if items.len() <= 1 && (thorough || ci == 0) {
                         jobs.push((sc, 1, Mode::Default));
@@ -590,7 +594,7 @@ pub fn run(run: &Run) {
     }
     let by_dev: [AtomicU64; 3] = [AtomicU64::new(0), AtomicU64::new(0), AtomicU64::new(0)];
     jobs.par_iter().for_each(|(sc, dev, mode)| {
-        let ex = Explorer { execs: &execs, steps: &steps, max_steps: 400_000 };
+        let ex = Explorer { execs: &execs, steps: &steps, max_steps: 3_000_000 };
         let before = execs.load(Ordering::Relaxed);
         let _ = before;
         let replay_cfg = json!({"scenario": format!("{:?}", sc), "deviation_bound": dev, "delivery_mode": format!("{:?}", mode)});
